@@ -58,7 +58,15 @@ def check_C16(tier, seed):
         grammars = []
         for i in range(ng):
             g = ggen.Gen(random.Random("c16/%s/%d" % (seed, i)), ggen.profile(profs[i % len(profs)])).grammar()
-            g.user_ctx = False
+            # every third grammar is compiled with a user context type (route equivalence must hold for all settings)
+            g.user_ctx = (i % 3 == 2) and any(r.kind == "extern" or (r.kind == "rule" and r.checks()) for r in g.rules) or (i % 6 == 5)
+            if not g.user_ctx:
+                # context-free variants of the user functions
+                for r in g.rules:
+                    if r.kind == "extern" and r.func[-1].endswith("c") and r.func[-1][:-1].startswith(("ext_", "probe_")):
+                        r.func[-1] = r.func[-1][:-1]
+                    if r.kind == "rule":
+                        r.directives = [("check", d[1][:-1] + [d[1][-1][:-1]]) if isinstance(d, tuple) and d[1][-1].endswith("c") and d[1][-1][:-1] in ("chk0", "chk1", "chk2", "chk3") else d for d in r.directives]
             text = grender.render(g, random.Random("c16l/%s/%d" % (seed, i)) if i % 2 else None)
             gp = os.path.join(wd, "g%d.ebnf" % i)
             with open(gp, "w", encoding="utf-8") as f:
@@ -71,37 +79,40 @@ def check_C16(tier, seed):
             # library route: 3 fresh processes, and 3 times inside one process
             outs = {}
             for rep in range(3):
-                jobs = [("g%d" % i, gp, os.path.join(wd, "lib_%d_%d_%d.rs" % (di, rep, i)), dspec, "-") for i, (_, _, gp) in enumerate(grammars)]
+                jobs = [("g%d" % i, gp, os.path.join(wd, "lib_%d_%d_%d.rs" % (di, rep, i)), dspec, "vfrt::Ctx" if gg.user_ctx else "-") for i, (gg, _, gp) in enumerate(grammars)]
                 r = build.run_cgdrv("gen", jobs, wd, nproc=1)
                 for i in range(ng):
                     outs.setdefault(i, []).append(("library/process%d" % rep, open(jobs[i][2], encoding="utf-8").read() if r["g%d" % i][0] == "ok" else None))
                     executions += 1
             jobs = []
-            for i, (_, _, gp) in enumerate(grammars):
+            for i, (gg, _, gp) in enumerate(grammars):
                 for rep in range(3):
-                    jobs.append(("g%dr%d" % (i, rep), gp, os.path.join(wd, "rep_%d_%d_%d.rs" % (di, rep, i)), dspec, "-"))
+                    jobs.append(("g%dr%d" % (i, rep), gp, os.path.join(wd, "rep_%d_%d_%d.rs" % (di, rep, i)), dspec, "vfrt::Ctx" if gg.user_ctx else "-"))
             r = build.run_cgdrv("gen", jobs, wd, nproc=1)
             for (jid, gp, op, _, _) in jobs:
                 i = int(jid[1:jid.index("r")])
                 outs[i].append(("library/same-process", open(op, encoding="utf-8").read() if r[jid][0] == "ok" else None))
                 executions += 1
             for i, (g, text, gp) in enumerate(grammars):
-                # command-line tool
+                # command-line tool (it has no option for a user context type)
                 cmd = [cli, gp]
                 for d in dlist:
                     cmd += ["-d", d]
-                p = subprocess.run(cmd, stdout=subprocess.PIPE, stderr=subprocess.PIPE, env=build.BASE_ENV, timeout=120)
-                so = p.stdout.decode("utf-8", "replace")
-                executions += 1
-                if p.returncode == 0:
-                    body = strip_header(so)
-                    outs[i].append(("peginator-cli", body[:-1] if body.endswith("\n") else body))
-                else:
-                    outs[i].append(("peginator-cli", None))
+                if not g.user_ctx:
+                    p = subprocess.run(cmd, stdout=subprocess.PIPE, stderr=subprocess.PIPE, env=build.BASE_ENV, timeout=120)
+                    so = p.stdout.decode("utf-8", "replace")
+                    executions += 1
+                    if p.returncode == 0:
+                        body = strip_header(so)
+                        outs[i].append(("peginator-cli", body[:-1] if body.endswith("\n") else body))
+                    else:
+                        outs[i].append(("peginator-cli", None))
                 # build-script helper
                 pref = prefixes[(i + di) % len(prefixes)]
                 dest = os.path.join(wd, "bs_%d_%d.rs" % (di, i))
-                p = subprocess.run([bs, "run", gp, dest, build.hexs(pref), dspec, "0", "-"], stdout=subprocess.PIPE, stderr=subprocess.PIPE, env=build.BASE_ENV, timeout=120)
+                order = list("opdfc")
+                random.Random("c16o/%s/%d/%d" % (seed, di, i)).shuffle(order)
+                p = subprocess.run([bs, "run", gp, dest, build.hexs(pref), dspec, "0", "vfrt::Ctx" if g.user_ctx else "-", "".join(order)], stdout=subprocess.PIPE, stderr=subprocess.PIPE, env=build.BASE_ENV, timeout=120)
                 executions += 1
                 if p.stdout.decode().strip() == "OK":
                     content = open(dest, encoding="utf-8").read()
@@ -116,7 +127,7 @@ def check_C16(tier, seed):
                         out.violation("c16:buildscript-layout", "destination is not header + prefix + code", {"grammar_text": text, "head": content[:400]})
                         outs[i].append(("Compile::file", None))
                     else:
-                        outs[i].append(("Compile::file", rest[len(want_start):]))
+                        outs[i].append(("Compile::file(builder order %s)" % "".join(order), rest[len(want_start):]))
                 else:
                     outs[i].append(("Compile::file", None))
             for i, lst in outs.items():
@@ -141,7 +152,7 @@ def check_C16(tier, seed):
         units = []
         cases = []
         for i, (g, text, gp) in enumerate(grammars[:nm]):
-            if any(r.kind == "rule" and False for r in g.rules):
+            if g.user_ctx:
                 continue
             libp = os.path.join(wd, "lib_0_0_%d.rs" % i)
             if not os.path.exists(libp):
